@@ -24,6 +24,113 @@ func gridValues(quick bool) []int64 {
 
 var scaleNames = []string{"linear", "log2", "log10"}
 
+var magGrid = magnitudes()
+
+// bucketSweep / lengthSweep: the numbers of buckets (>= 1) and the maximum
+// lengths (>= 0) of the size sweep of the scaler laws.
+var bucketSweep, lengthSweep = func() ([]int, []int) {
+	var b, l []int
+	for _, n := range sizes(257) {
+		if n >= 1 {
+			b = append(b, n)
+		}
+		l = append(l, n)
+	}
+	return b, l
+}()
+
+// magPairs: the (min, max) ranges of the magnitude sweep: a handful of minima
+// against every magnitude as the maximum, every magnitude as the minimum
+// against a handful of maxima. sweep = the number of buckets is swept too.
+type magPair struct {
+	min, max int64
+	sweep    bool
+}
+
+func magPairs() []magPair {
+	var out []magPair
+	for _, v := range magGrid {
+		for _, mn := range []int64{math.MinInt64, -1, 0, 1} {
+			out = append(out, magPair{mn, v, mn == 0 && v > 0})
+		}
+		out = append(out, magPair{v, math.MaxInt64, false}, magPair{v, 0, false})
+		if v < math.MaxInt64 {
+			out = append(out, magPair{v, v + 1, false})
+		}
+	}
+	return out
+}
+
+// stackedVectors: the value vectors of the stacked-bar law: small shapes, and
+// around every positive magnitude v: v alone, v with v-1, two halves, v among ones.
+func stackedVectors() [][]int64 {
+	out := [][]int64{{0}, {1}, {1, 1}, {1, 2, 3}, {5, 0, 5}, {-1, 4}, {3, -3, 3}, {1, 1, 1, 1, 1, 1, 1, 1, 1, 1, 1, 1, 1, 1, 1, 1, 1, 1}, {9, 8, 7, 6, 5, 4, 3, 2, 1}}
+	for _, v := range magGrid {
+		if v <= 0 {
+			continue
+		}
+		out = append(out, []int64{v})
+		if v >= 2 && v <= math.MaxInt64/2 {
+			out = append(out, []int64{v, v - 1})
+		}
+		out = append(out, []int64{v / 2, v - v/2}, []int64{1, v / 3, 1, v / 3})
+	}
+	return out
+}
+
+var stackedVecs = stackedVectors()
+
+func sumPos(vals []int64) (s int64) {
+	for _, v := range vals {
+		if v > 0 {
+			s += v
+		}
+	}
+	return
+}
+
+// runStackedLaw: termunicode.BarWriteStacked for one maximum length and every
+// value vector, with the maximum a renderer passes (the largest positive row
+// sum: this row's, twice it, MaxInt64). "bars never exceed their maximum width
+// and grow with the value".
+func runStackedLaw(c Case, rep *report) {
+	setGlobals(c.Cfg)
+	maxLen := c.Cfg.Cols
+	seen := map[int]bool{}
+	for _, vals := range stackedVecs {
+		sp := sumPos(vals)
+		maxVals := []int64{sp, math.MaxInt64}
+		if sp <= math.MaxInt64/2 {
+			maxVals = append(maxVals, 2*sp)
+		}
+		for _, mv := range maxVals {
+			var sb strings.Builder
+			termunicode.BarWriteStacked(&sb, mv, int64(maxLen), vals...)
+			raw := sb.String()
+			segs, ok := stackedSegments(raw, visible(raw), c.Cfg, len(vals))
+			if !ok {
+				rep.fail("C14/termunicode/BarWriteStacked/malformed-bar", "BarWriteStacked(max %d, len %d, %v) = %q", mv, maxLen, vals, raw)
+				return
+			}
+			sum := 0
+			var pts []monoPoint
+			for i, n := range segs {
+				sum += n
+				if c.Cfg.Color || len(vals) <= 16 {
+					pts = append(pts, monoPoint{vals[i], n, fmt.Sprintf("segment %d", i)})
+				}
+			}
+			if sum > maxLen {
+				rep.fail("C14/termunicode/BarWriteStacked/bar-exceeds-width/"+valueClass(vals...), "BarWriteStacked(max %d, len %d, %v) wrote %d cells %v", mv, maxLen, vals, sum, segs)
+			}
+			checkMonotone(rep, "C14/termunicode/BarWriteStacked/bar-not-monotone", pts)
+			seen[sum] = true
+		}
+	}
+	rep.nontrivial = len(seen) >= 3
+	rep.outcome = append(rep.outcome, fmt.Sprint(len(seen)))
+}
+
 // runScalerLaws: case = (scaler, min, max); all val of the grid.
 // "Scaled magnitudes lie in [0,1] and are monotone in the value".
 func runScalerLaws(c Case, rep *report) {
@@ -32,6 +139,16 @@ func runScalerLaws(c Case, rep *report) {
 		panic("harness: scaler")
 	}
 	min, max := c.Cfg.Min, c.Cfg.Max
+	if len(c.Grid) == 0 { // the magnitude sweep: every power of ten and of two -1, +0, +1, both signs
+		c.Grid = magGrid
+	}
+	bucketCounts := []int{4, 9, 10, 16}
+	var lengths []int
+	if c.Cfg.Cols > 0 { // sweep of the number of buckets / the maximum length
+		bucketCounts, lengths = bucketSweep, lengthSweep
+	}
+	prevB := make([]int, len(bucketCounts))
+	prevL := make([]int, len(lengths))
 	prev := math.Inf(-1)
 	var prevVal int64
 	prevBucket, prevLen := -1, -1
@@ -48,10 +165,28 @@ func runScalerLaws(c Case, rep *report) {
 			return
 		}
 		// Bucket "Return [0, bucket-1]", LengthVal "Return [0, maxLen]"
-		for _, n := range []int{4, 9, 10, 16} {
-			if b := s.Bucket(n, val, min, max); b < 0 || b > n-1 {
+		for k, n := range bucketCounts {
+			b := termscaler.Bucket(n, u) // = s.Bucket(n, val, min, max), which is checked for n = 16 below
+			if k < 4 {
+				b = s.Bucket(n, val, min, max)
+			}
+			if b < 0 || b > n-1 {
 				rep.fail("C14/scaler/"+c.Cfg.Scale+"/bucket-out-of-range", "Bucket(%d, %d, %d, %d) = %d", n, val, min, max, b)
 			}
+			if i > 0 && b < prevB[k] {
+				rep.fail("C14/scaler/"+c.Cfg.Scale+"/bucket-not-monotone", "Bucket(%d, ...): val %d -> %d, val %d -> %d (min %d max %d)", n, prevVal, prevB[k], val, b, min, max)
+			}
+			prevB[k] = b
+		}
+		for k, n := range lengths {
+			l := termscaler.LengthVal(n, u) // = s.LengthVal(n, val, min, max), which is checked for n = 50 below
+			if l < 0 || l > n {
+				rep.fail("C14/scaler/"+c.Cfg.Scale+"/length-out-of-range", "LengthVal(%d, %d, %d, %d) = %d", n, val, min, max, l)
+			}
+			if i > 0 && l < prevL[k] {
+				rep.fail("C14/scaler/"+c.Cfg.Scale+"/bucket-not-monotone", "LengthVal(%d, ...): val %d -> %d, val %d -> %d (min %d max %d)", n, prevVal, prevL[k], val, l, min, max)
+			}
+			prevL[k] = l
 		}
 		b16 := s.Bucket(16, val, min, max)
 		l50 := s.LengthVal(50, val, min, max)
